@@ -11,9 +11,9 @@ Modelling decisions (notes/agents/C10.md):
 * time is `Int` ms; `_clock_resolution_millis` (1e-6 ms) is below the model's resolution;
   `ttl_millis * 0.1` is `ttl * 1000 * 100 / 1000` exactly.
 * `_query_heap` is a list kept in ascending `when` order (heapq abstracted to "pop a minimum").
-* `_next_scheduled_for_alias` is *derived*: the entry of an alias is the live (not cancelled) heap
-  entry with that alias.  The code keeps the two in bijection (live heap entries = dict values); the
-  correspondence harness compares the real dict with this derived view after every operation.
+* `_next_scheduled_for_alias` is *derived* here: the entry of an alias is the live (not cancelled) heap
+  entry with that alias.  `Zc.Sched2` (Model/Sched2.lean) has the dict and the heap as separate state, is what the
+  harness runs, and is proved to refine this model (`Sched2.exec2_refines`), so theorems about `exec` transfer.
 * `_next_run` is one slot `armed` (kind, due time) + `started` (`_next_run is not None`).
 No Mathlib. -/
 namespace Zc.Sched
